@@ -83,7 +83,7 @@ def site_kind(f, t):
         return "unwrap"
     if p.endswith(("::Option::expect", "::Result::expect", "::Result::expect_err", "::Result::unwrap_err")):
         return "expect"
-    if d.endswith(("ops::Index::index", "ops::IndexMut::index_mut")):
+    if d.endswith(("ops::index::Index::index", "ops::index::IndexMut::index_mut")):
         recv = f.local_ty(t.args[0].place.local) if t.args and t.args[0].place is not None else ""
         rt = recv.lstrip("&").replace("mut ", "")
         if rt.startswith("str") or rt.startswith("alloc::string::String"):
@@ -103,6 +103,94 @@ def site_kind(f, t):
 def short_ty(t):
     t = re.sub(r"<.*", "", t)
     return "::".join(t.split("::")[-2:])
+
+
+def definitely_some(prov, f, u):
+    """local discharge of `opt.unwrap()`: a forward dataflow over the CFG proves that the Option local is Some at the call
+    (assigned `Some(..)`, or refined by is_some()/is_none()/a discriminant test on the path)."""
+    from facts import Operand
+    if not u.args or u.args[0].place is None or u.args[0].place.proj:
+        return False
+    d = prov.defs(f)
+    # root local: follow plain moves/copies of the operand
+    root = u.args[0].place.local
+    for _ in range(4):
+        ds = [x for x in d.defs.get(root, ()) if x[0] != "mutarg"]
+        if len(ds) == 1 and ds[0][0] == "stmt" and ds[0][1].rv.k == "use" and ds[0][1].rv.ops[0].place is not None and not ds[0][1].rv.ops[0].place.proj:
+            root = ds[0][1].rv.ops[0].place.local
+        else:
+            break
+    ty = f.local_ty(root)
+    if "option::Option<" not in ty:
+        return False
+    cfg = CFG(f)
+    # locals that are refs/copies of root (for is_none(&root))
+    alias = {root}
+    for s in f.stmts():
+        if not s.lhs.proj and s.rv.k in ("ref", "use"):
+            src = s.rv.place if s.rv.k == "ref" else s.rv.ops[0].place
+            if src is not None and src.local in alias and all(p[0] == "deref" for p in src.proj):
+                alias.add(s.lhs.local)
+    SOME, NONE, TOP = "S", "N", "T"
+    state = {0: TOP}
+    work = [0]
+    # edge refinements: block -> {succ: state}
+    refine = {}
+    for b in f.blocks:
+        t = b.term
+        if t.k == "call" and (t.path or "").endswith(("Option::is_none", "Option::is_some")) and t.args and t.args[0].place is not None and t.args[0].place.local in alias and t.target is not None:
+            sw = cfg.blocks[t.target].term
+            if sw.k == "switch":
+                is_none = t.path.endswith("is_none")
+                for v, tg in sw.j["targets"]:
+                    if v == 0:
+                        refine.setdefault(t.target, {})[tg] = SOME if is_none else NONE
+                refine.setdefault(t.target, {})[sw.j["otherwise"]] = NONE if is_none else SOME
+        if t.k == "switch":
+            op = Operand(t.j["discr"])
+            if op.place is not None:
+                for kind, site in d.defs.get(op.place.local, ()):
+                    if kind == "stmt" and site.rv.k == "discr" and site.rv.place.local in alias and all(p[0] == "deref" for p in site.rv.place.proj):
+                        for v, tg in t.j["targets"]:
+                            refine.setdefault(b.idx, {})[tg] = SOME if v == 1 else NONE
+
+    def transfer(bidx, st):
+        for s in cfg.blocks[bidx].stmts:
+            if s.lhs.local == root and not s.lhs.proj:
+                if s.rv.k == "agg" and s.rv.j.get("variant") == "Some":
+                    st = SOME
+                elif s.rv.k == "agg" and s.rv.j.get("variant") == "None":
+                    st = NONE
+                else:
+                    st = TOP
+        t = cfg.blocks[bidx].term
+        if t.k == "call" and t.dest is not None and t.dest.local == root and not t.dest.proj:
+            st = TOP
+        if t.k == "call" and any(a.place is not None and a.place.local in alias and a.kind == "move" and a.place.local == root for a in t.args) and t is not u:
+            st = TOP
+        return st
+    out = {}
+    seen_iter = 0
+    while work and seen_iter < 5000:
+        seen_iter += 1
+        b = work.pop()
+        st = transfer(b, state[b])
+        out[b] = st
+        for sname in cfg.succ[b]:
+            ns = refine.get(b, {}).get(sname, st)
+            old = state.get(sname)
+            new = ns if old is None else (old if old == ns else TOP)
+            if new != old:
+                state[sname] = new
+                work.append(sname)
+    # state at the unwrap: state on entry to its block, after the block's statements
+    st = state.get(u.bb)
+    if st is None:
+        return False
+    for s in cfg.blocks[u.bb].stmts:
+        if s.lhs.local == root and not s.lhs.proj:
+            st = SOME if (s.rv.k == "agg" and s.rv.j.get("variant") == "Some") else TOP
+    return st == SOME
 
 
 def collect(db, reach, prov=None):
@@ -130,6 +218,8 @@ def collect(db, reach, prov=None):
                     macro_sites.append((f, pm[0], msg, t))
                     continue
                 k = site_kind(f, t)
+                if k in ("unwrap", "expect") and prov is not None and (t.path or "").endswith(("::Option::unwrap", "::Option::expect")) and definitely_some(prov, f, t):
+                    continue   # locally discharged: the Option is provably Some here
                 if k:
                     op_sites.append((f, k, t))
             elif t.k == "assert" and t.j.get("msg") == "bounds":
@@ -325,7 +415,11 @@ def run(ctx):
                 why += "; new site(s) in: " + "; ".join(grown)
                 site = grown[0] if grown else file
             ctx.ob("R14.2", "%s|%s" % (file, k), ok, why, site=site)
-    ctx.floor("R14.2", 15)
+    ctx.floor("R14.2", 30)
+    total = sum(sum(c.values()) for fns_ in curf.values() for c in fns_.values())
+    kinds_seen = {k for fns_ in curf.values() for c in fns_.values() for k in c}
+    ctx.ob("R14.2", "enumerator-recall", total >= 250 and {"unwrap", "expect", "map-index", "str-slice", "slice-index", "graph-index"} <= kinds_seen,
+           "panic-capable operation sites enumerated: %d of kinds %s (recall floor 250; clippy's restriction lints counted 71 unwrap / 21 expect / 57 indexing sites in the four library crates)" % (total, sorted(kinds_seen)), nontrivial=False)
 
     # ---- R14.3 span constants
     ts = table["span_consts"]
